@@ -34,8 +34,8 @@ def treeObs (t : RevTree) : JVal :=
 def resJson (r : Res JVal) : JVal :=
   match r with
   | .ok v => .obj [(S "ok", v)]
-  | .err e => .obj [(S "err", jstr (msgPrefix e))]
-  | .panic m => .obj [(S "panic", jstr (msgPrefix m))]
+  | .err _ => .obj [(S "err", jstr (S "-"))]      -- the class only: messages are not part of any property
+  | .panic _ => .obj [(S "panic", jstr (S "-"))]
 
 def obsOf (st : PState) (readRes : JVal) (stageKeys : List Str) : JVal :=
   .obj (objOfList [
@@ -248,7 +248,7 @@ def simStep (H : Bytes → Str) (reps : Array SimRep) (line : JVal) : Array SimR
             finish st (if res = S "none" then [] else S "commit: nothing staged in the model, impl " ++ res)
           else if DState.commitRefusesInfo infoReq then
             -- the nesting guard: refused before anything is resolved or written
-            finish st ((if res = S "refused" then [] else S "commit: the model refuses the information (nested too deeply), impl " ++ res)
+            finish st ((if res = S "refused" || res = S "err" then [] else S "commit: the model refuses the information (nested too deeply), impl " ++ res)
                        ++ (if items.isEmpty then [] else S " ; a refused commit wrote items"))
           else if res = S "refused" then
             finish st (S "commit: the implementation refused the information as nested too deeply, the model accepts it")
